@@ -171,6 +171,15 @@ func runDIFFENTRY(c *Ctx) {
 					if call, ok := cond.(*ssa.Call); ok && !f.Truth && ir.Callee(call.Call) == nil && !call.Call.IsInvoke() {
 						why = "a callback's answer 'stop'"
 					}
+					// stop: the boolean result of a reporting helper that answers the negation of the callback's
+					// keepGoing (`return !keepGoing, nil`, and true when the callback failed)
+					if ex, ok := cond.(*ssa.Extract); ok && f.Truth {
+						if call, ok := ex.Tuple.(*ssa.Call); ok {
+							if h := ir.Callee(call.Call); h != nil && h.Blocks != nil && isOwn(P, h) && helperAnswersStop(c, h, ex.Index) {
+								why = "a callback's answer 'stop' (handed on, negated, by " + h.Name() + ")"
+							}
+						}
+					}
 				}
 				if why == "" {
 					c.Violation(fn, pos, "diff loop ends with success for a reason of its own",
@@ -266,6 +275,30 @@ func runDIFFENTRY(c *Ctx) {
 }
 
 // callsACallback: h (or a repository function it calls, two levels down) calls through a function value.
+// helperAnswersStop: result idx of helper h is true exactly when a callback it calls answered keepGoing==false, or
+// (a constant) where h stops on its own account after that call: the callback's boolean result reaches the returns
+// of h only negated (cbpHandsOn).
+func helperAnswersStop(c *Ctx, h *ssa.Function, idx int) bool {
+	if idx >= h.Signature.Results().Len() || !sdIsBool(h.Signature.Results().At(idx).Type()) || !onlyCalledStatically(c, h) {
+		return false
+	}
+	for _, ci := range CallsOf(h) {
+		call, isCall := ci.(*ssa.Call)
+		if !isCall || call.Call.IsInvoke() || ir.Callee(call.Call) != nil {
+			continue
+		}
+		if _, isB := call.Call.Value.(*ssa.Builtin); isB {
+			continue
+		}
+		if keep, _ := cbResults(call); keep != nil {
+			if upStop, _, ok := cbpHandsOn(h, call, keep, false); ok && upStop {
+				return true
+			}
+		}
+	}
+	return false
+}
+
 func callsACallback(c *Ctx, h *ssa.Function, d int) bool {
 	if h == nil || h.Blocks == nil || d > 2 {
 		return false
